@@ -122,6 +122,6 @@ class GridDistortion:
                         (data['yp'] - data['yr'])**2)
         rp = np.sqrt(data['xp']**2 + data['yp']**2)
 
-        data['max_distortion'] = np.max(100 * delta / rp)
+        data['max_distortion'] = np.nanmax(100 * delta / rp)
 
         return data
